@@ -118,8 +118,8 @@ def run(ctx):
             except Exception as e:
                 ctx.count('harness_error')
                 continue
-            if 'raised' in a:
-                ctx.count('base_raises')
+            if 'raised' in a or b.get('raised') == 'Timeout':
+                ctx.count('base_raises_or_timeout')
                 continue
             if 'raised' in b or canon_obs(a) != canon_obs(b):
                 what = b.get('raised') or next((k for k in ('infinite', 'variables', 'index', 'valid', 'bound', 'relation')
